@@ -75,18 +75,7 @@ public:
    */
   static Eigen::Matrix3<Scalar> calc_S1inv(TRefIn a_in)
   {
-    using std::sqrt, std::sin, std::cos;
-    const Scalar th2 = a_in.squaredNorm();
-
-    const auto A = [&]() -> Scalar {
-      if (th2 < Scalar(eps2)) {
-        // https://www.wolframalpha.com/input/?i=series+1%2Fx%5E2-%281%2Bcos+x%29%2F%282*x*sin+x%29+at+x%3D0
-        return Scalar(1) / Scalar(12) + th2 / Scalar(720);
-      } else {
-        const Scalar th = sqrt(th2);
-        return Scalar(1) / th2 - (Scalar(1) + cos(th)) / (Scalar(2) * th * sin(th));
-      }
-    }();
+    const Scalar A = detail::dexpinv_coef<Scalar>(a_in.squaredNorm());
     Eigen::Matrix3<Scalar> M;
     hat(a_in, M);
 
